@@ -302,14 +302,17 @@ PROPS = {
         "level_text": "All 73 exported functions are called with hostile arguments (uniform bits, valid cells with 1-3 flipped bits, wrong mode/reserved bits, digit 7 inside the resolution, deleted-sub-sequence pentagon cells, base cell "
                       "122-127, extreme ints, NaN/inf/1e300/denormal doubles, malformed polygons with 0-2 vertices / repeated vertices / empty holes / self-intersections / non-finite coordinates, malformed cell sets with "
                       "duplicates / mixed resolutions / H3_NULL / reserved bits) and with random 2-6 call sequences feeding outputs into the next call, on exact-size heap buffers, under ASan+UBSan+float-cast-overflow with "
-                      "assertions on (every internal safety check that fires is intercepted and reported), again on the release (-DNDEBUG) build under the sanitizers, and (thorough) a slice under valgrind memcheck. "
+                      "assertions on (every internal safety check that fires is intercepted and reported), again on the release (-DNDEBUG) build under the sanitizers, again with every draw of the generators taken from a byte tape that "
+                      "libFuzzer mutates under coverage feedback from the library (clang build), and (thorough) a slice under valgrind memcheck. "
                       "Return codes must be 0..15, out-of-domain scalars must give their documented code where the call is otherwise well-formed (Appendix A of DESIGN.md), every call must return within the per-call budget.",
         "level_note": "Sampling of a huge argument space; sizes above 2e6 output slots are skipped and counted. Polygons with non-finite / out-of-range outer coordinates are driven at res <= 4 only (known finding F4: unbounded scan).",
-        "technique": "runtime monitoring: compiler sanitizers (ASan, UBSan) and valgrind memcheck with guarded exact-size buffers, assertion interception, return-code table and per-call watchdog over hostile workloads",
+        "technique": "runtime monitoring: compiler sanitizers (ASan, UBSan) and valgrind memcheck with guarded exact-size buffers, assertion interception, return-code table and per-call watchdog over hostile workloads, "
+                     "random and coverage-guided (libFuzzer over the same case generators)",
         "evaluations": ["cases"],
         "rule": "a case is one table entry (a group of API calls sharing generated hostile arguments) or one call sequence, replayable from the PRNG state. Every case is non-trivial (hostile arguments); one case in 16 is entered "
                 "into the distinct set, keyed by the PRNG state, so the distinct count is a sampled lower bound. 'api_calls' counts individual library calls.",
-        "require": {"cases": {"quick": 400000, "thorough": 20000000}, "api_calls": 2000000, "documented_code_judgements": 200000, "polygons": 30000, "sequence": 30000, "disks": 30000},
+        "require": {"cases": {"quick": 400000, "thorough": 20000000}, "api_calls": 2000000, "documented_code_judgements": 200000, "polygons": 30000, "sequence": 30000, "disks": 30000,
+                    "fuzz.execs": {"quick": 90000, "thorough": 2000000}, "fuzz.corpus_units_kept": 1000},
         "assumptions": ["documented codes as tabulated in DESIGN.md Appendix A", "red-zone sanitizers do not see non-adjacent overflows into other live objects"],
     },
     "C13": {
